@@ -22,6 +22,9 @@
      regress:defined-attr a callback inside the object expression of x.y is defined  (swallowed before aee56e1)
      regress:spaceless    the spaceless tag with a registered spaceless filter, and the sandbox refusing it
                           (swallowed before 36660ef)
+     dead-sites        raw sources aimed at the two discard sites no tokenised template reaches (a text node with
+                       {{ .. }} inside a macro body, a loop variable name containing a bar): the runner checks with a hook that the
+                       parser never builds those node shapes, and that a callback which is invoked and fails gives an error
      missing:*         an unknown macro / template name at one reference site of a generated set, with a probe
                        callback evaluated immediately before the lookup (probe invoked => the render must fail) *)
 open Util
@@ -587,10 +590,53 @@ let missing_stream r oc n =
       done) sites
   done
 
+(* ---- raw sources for the two discard sites that no tokenised template reaches *)
+let emit_raw oc ~(stream : string) ~(scenario : string) (tpls : (string * string) list) =
+  emit oc (Ob [ "stream", JS stream; "scenario", JS scenario;
+                "tpls", JL (List.map (fun (n, src) -> JL [ JS (hex n); JS (hex src) ]) tpls);
+                "main", JS "main"; "kinds", JS ""; "ctx", JS (G.value_str (G.vmap ctx0));
+                "custom", JL [ JL [ JS "filter"; JS "bad"; JS "id" ]; JL [ JS "filter"; JS "sort"; JS "id" ] ];
+                "policy", JS "none"; "exp", Ob [ "skip", JS "raw" ]; "raw", JB true;
+                "ctrace", JL []; "loads", JL []; "ign_only", JL []; "ign_mixed", JL []; "faults", JL []; "unreg", JL [] ])
+
+let dead_stream r oc n =
+  let pad = String.make 5000 '.' in
+  let fixed = [
+    "macro-escaped-opener", "{% macro m(x) %}[\\{{ x|bad }}]{% endmacro %}{{ m(5) }}";
+    "macro-escaped-trim-opener", "{% macro m(x) %}[\\{{- x|bad -}}]{% endmacro %}{{ m(5) }}";
+    "macro-escaped-opener-args", "{% macro m(x) %}\\{{ x|bad:1,2 }}{% endmacro %}{{ m(5) }}";
+    "macro-two-escaped", "{% macro m(x) %}\\{{ x|bad }} and \\{{ x }}{% endmacro %}{{ m(5) }}";
+    "macro-verbatim", "{% macro m(x) %}{% verbatim %}{{ x|bad }}{% endverbatim %}{% endmacro %}{{ m(5) }}";
+    "macro-string", "{% macro m(x) %}{{ '{{ x|bad }\\}' }}{% endmacro %}{{ m(5) }}";
+    "macro-comment", "{% macro m(x) %}{# {{ x|bad }} #}a{% endmacro %}{{ m(5) }}";
+    "macro-escaped-block", "{% macro m(x) %}\\{% x|bad %}{{ '}' }}{% endmacro %}{{ m(5) }}";
+    "for-filter", "{% for i in xs|bad %}{{ i }}{% endfor %}";
+    "for-filter-parens", "{% for i in (xs|bad) %}{{ i }}{% endfor %}";
+    "for-filter-spaces", "{% for i in xs | bad %}{{ i }}{% endfor %}";
+    "for-filter-chain", "{% for i in xs|bad|reverse %}{{ i }}{% endfor %}";
+    "for-filter-args", "{% for i in xs|bad(1) %}{{ i }}{% endfor %}";
+    "for-key-filter", "{% for k, i in xs|bad %}{{ i }}{% endfor %}";
+    "for-sort", "{% for i in xs|sort %}{{ i }}{% endfor %}";
+    "for-filter-trim", "{%- for i in xs|bad -%}{{ i }}{%- endfor -%}" ] in
+  List.iter (fun (name, src) ->
+    emit_raw oc ~stream:"dead-sites" ~scenario:name [ ("main", src) ];
+    emit_raw oc ~stream:"dead-sites" ~scenario:(name ^ "/large") [ ("main", src ^ pad) ];
+    emit_raw oc ~stream:"dead-sites" ~scenario:(name ^ "/large-before") [ ("main", pad ^ src) ]) fixed;
+  (* random fragments inside a macro body and inside a for tag *)
+  let frag = [| "\\"; "{{"; "}}"; "{{-"; "-}}"; "|bad"; "|"; "x"; " "; "{%"; "%}"; "{#"; "#}"; "'"; "-"; "xs"; "bad"; "\n"; "a" |] in
+  for i = 1 to n do
+    let body = String.concat "" (List.init (1 + rint r 8) (fun _ -> pick r frag)) in
+    let src = if rbool r then "{% macro m(x) %}" ^ body ^ "{% endmacro %}{{ m(5) }}"
+      else "{% for i in xs" ^ body ^ " %}{{ i }}{% endfor %}" in
+    let src = if rint r 5 = 0 then src ^ pad else src in
+    emit_raw oc ~stream:"dead-sites" ~scenario:("random" ^ string_of_int i) [ ("main", src) ]
+  done
+
 let run ~seed ~tier oc =
   let r = mk_rng seed in
   let thorough = tier = "thorough" in
   shape_stream oc;
   site_streams r oc;
+  dead_stream r oc (if thorough then 20000 else 1500);
   gen_stream r oc (if thorough then 6000 else 300);
   missing_stream r oc (if thorough then 4000 else 250)
